@@ -11,8 +11,10 @@ import (
 	"net/http/httptest"
 	"net/url"
 	"strings"
+	"time"
 
 	"github.com/beevik/etree"
+	saml2 "github.com/russellhaering/gosaml2"
 
 	"verif/harness/mon"
 	"verif/harness/sim"
@@ -196,8 +198,113 @@ func customDoc(r *rand.Rand) *etree.Document {
 	return d
 }
 
+// runC14Reconfigured: the application replaces the SP's signing key from inside a URL build (a key-management
+// callback running on the calling goroutine: the signer's Public() is consulted in the middle of the call). Whichever
+// configuration the URL ends up reflecting, it is one configuration: SigAlg names the algorithm of the key whose
+// signature it carries.
+func runC14Reconfigured(c *mon.Ctx, now time.Time) {
+	n := c.N(160, 4000)
+	for k := 0; k < n; k++ {
+		cs := c.Begin("reconfigured-in-flight", k)
+		if cs == nil {
+			continue
+		}
+		r := cs.Rand()
+		names := []string{"spsign", "spsign2", "spsignec"}
+		p := r.Perm(3)
+		ca, cb := sim.Wide(sim.K(names[p[0]]), now), sim.Wide(sim.K(names[p[1]]), now)
+		algA, algB := pick(r, SigAlgsFor(ca.Key)), pick(r, SigAlgsFor(cb.Key))
+		sp, _, _ := NewSP(now)
+		spy := &SpySigner{K: ca.Key}
+		sp.SignAuthnRequests = true
+		sp.SignAuthnRequestsAlgorithm = algA.URI
+		sp.SetSPSigningKeyStore(&saml2.KeyStore{Signer: spy, Cert: ca.DER})
+		logout := k%2 == 1
+		relay := c14Relay[r.IntN(len(c14Relay))]
+		cs.Desc("logout=%v A=%s/%s B=%s/%s relay=%q", logout, ca.Key.Name, algA.URI, cb.Key.Name, algB.URI, trunc(relay, 40))
+		build := func() (string, string, error) {
+			var doc *etree.Document
+			var err error
+			if logout {
+				doc, err = sp.BuildLogoutRequestDocumentNoSig("user@example.org", "_s1")
+			} else {
+				doc, err = sp.BuildAuthRequestDocumentNoSig()
+			}
+			if err != nil {
+				return "", "", err
+			}
+			want, _ := doc.WriteToString()
+			var out string
+			if logout {
+				out, err = sp.BuildLogoutURLRedirect(relay, doc)
+			} else {
+				out, err = sp.BuildAuthURLRedirect(relay, doc)
+			}
+			return out, want, err
+		}
+		fired := false
+		var out, wantDoc string
+		var err error
+		pv, stack := mon.Guard(func() {
+			if _, _, err = build(); err != nil { // first use: the provider is in service
+				return
+			}
+			f := func() {
+				fired = true
+				sp.SignAuthnRequestsAlgorithm = algB.URI
+				sp.SetSPSigningKeyStore(&saml2.KeyStore{Signer: cb.Key.Signer, Cert: cb.DER})
+			}
+			spy.OnPublic.Store(&f)
+			out, wantDoc, err = build()
+		})
+		if pv != nil {
+			cs.Violation("panic", "panic: %v\n%s", pv, trunc(stack, 1200))
+			continue
+		}
+		if err != nil {
+			cs.Violation("build-error", "redirect URL could not be built: %v", err)
+			continue
+		}
+		if !fired {
+			cs.Outcome("callback-not-reached")
+			continue
+		}
+		cs.Input([]byte(out))
+		cs.Nontrivial(cs.Description())
+		idp := IdPSSO
+		if logout {
+			idp = IdPSLO
+		}
+		var keys []string
+		ok := false
+		for _, cand := range []struct {
+			c   *sim.Cert
+			alg SigAlgChoice
+		}{{ca, algA}, {cb, algB}, {ca, algB}, {cb, algA}} {
+			ksp := &KeyedSP{Certs: map[string]*sim.Cert{"signS": cand.c}, WantSign: "signS"}
+			h := cand.alg.Hash
+			if cand.alg.URI != "" && ExpectedSigURI(cand.c.Key, h) != cand.alg.URI {
+				h = 0 // the setting belongs to the other key type: any algorithm of this key's type
+			}
+			key, msg, _ := checkRedirectURL(out, idp, relay, wantDoc, true, ksp, h)
+			if key == "" {
+				ok = true
+				break
+			}
+			keys = append(keys, key+": "+msg)
+		}
+		if !ok {
+			cs.Outcome("inconsistent-url")
+			cs.Violation("url-mixes-configurations", "the URL built while the signing key was being replaced is consistent with neither key: %s", trunc(strings.Join(keys, " | "), 600))
+			continue
+		}
+		cs.Outcome("one-configuration")
+	}
+}
+
 func runC14(c *mon.Ctx) {
 	now := BaseTime(c.Seed)
+	runC14Reconfigured(c, now)
 	kcs := AllKeyCfgs()
 	flows := []string{"BuildAuthURL", "BuildAuthURLFromDocument", "BuildAuthURLRedirect", "BuildAuthURLRedirect-unsigned", "BuildLogoutURLRedirect", "AuthRedirect"}
 	n := c.N(3000, 150000)
